@@ -51,6 +51,21 @@ func genC01(g *gen) {
 			}
 		}
 	}
+	// a mask hides nothing from addressing: At and SetAt on masked tensors (hard mask - the default - and soft), at
+	// masked and at valid coordinates, directly and through masked views
+	for _, dt := range []string{"i32", "f64", "str"} {
+		for _, bits := range []string{"101010", "111111", "000000", "010101"} {
+			for _, soft := range []bool{false, true} {
+				steps := []string{fmt.Sprintf("mnew %s 2,3 C %s", dt, bits)}
+				if soft {
+					steps = append(steps, "soften $0")
+				}
+				steps = append(steps, "atbox $0 -1 1", "setat $0 0,0", "setat $0 0,1", "setat $0 1,2", "dump $0", "atbox $0 0 0", "mdump $0",
+					"slice $0 1,n", "setat $1 0", "setat $1 2", "dump $0", "dump $1", "mdump $0", "setat $0 2,0", "dump $0")
+				g.emit(steps...)
+			}
+		}
+	}
 	classes := []string{"asis", "lazyT", "physT", "slice", "slice"}
 	for si, sh := range shs {
 		for oi, ord := range orders {
@@ -804,6 +819,22 @@ func genC13(g *gen) {
 						}
 						steps = append(steps, fmt.Sprintf(op, v), fmt.Sprintf("dump $%d", v+1), fmt.Sprintf("atbox $%d 0 0", v+1),
 							fmt.Sprintf("memset $%d", v+1), fmt.Sprintf("dump $%d", v), "dump $0")
+						g.emit(steps...)
+					}
+				}
+			}
+		}
+	}
+	// a reshape that is refused changes nothing: views with gaps, with and without a pending transposition, reshaped to
+	// shapes of equal and of different size - the view, its parent and a sibling view are dumped afterwards
+	for _, dt := range []string{"i16", "f64"} {
+		for _, ord := range []string{"C", "Fraw"} {
+			for _, sl := range []string{"n,1:3", "0:3:2,n", "1:3,1:3"} {
+				for _, pre := range [][]string{{}, {"T $1 1,0"}, {"T $1 -"}} {
+					for _, dims := range []string{"6", "2,3", "3,2", "4", "1,6", "2,2"} {
+						steps := []string{fmt.Sprintf("new %s 3,4 %s", dt, ord), "slice $0 " + sl, "slice $0 0:2,0:2"}
+						steps = append(steps, pre...)
+						steps = append(steps, "reshape $1 "+dims, "dump $1", "dump $0", "dump $2", "UT $1", "dump $1", "dump $0")
 						g.emit(steps...)
 					}
 				}
